@@ -1178,6 +1178,10 @@ func (app *App) enableSemiSyncOnSlave(host string, slaveState, masterState *node
 		app.logger.Error().Err(err).Msgf("failed to enable semi_sync_slave on %s", host)
 		return err
 	}
+	if masterState == nil || masterState.MasterState == nil || slaveState == nil || slaveState.SlaveState == nil {
+		// probe of the master or of the replica was incomplete in this iteration
+		return fmt.Errorf("gtid state of master or replica %s is unknown", host)
+	}
 	masterGtidSet := gtids.ParseGtidSet(masterState.MasterState.ExecutedGtidSet)
 	slaveGtidSet := gtids.ParseGtidSet(slaveState.SlaveState.ExecutedGtidSet)
 
